@@ -398,3 +398,34 @@ pub fn small_frame(fam: Fam, k: u64) -> Vec<u8> {
     }
     f
 }
+
+/// Minimal join of two futures: both are polled on every wake-up until each has finished.
+pub struct Join2<'a, T> {
+    pub a: std::pin::Pin<Box<dyn std::future::Future<Output = T> + 'a>>,
+    pub b: std::pin::Pin<Box<dyn std::future::Future<Output = T> + 'a>>,
+    pub ra: Option<T>,
+    pub rb: Option<T>,
+}
+
+impl<T: Unpin> std::future::Future for Join2<'_, T> {
+    type Output = (T, T);
+    fn poll(self: std::pin::Pin<&mut Self>, cx: &mut std::task::Context<'_>) -> std::task::Poll<(T, T)> {
+        let this = self.get_mut();
+        if this.ra.is_none() {
+            if let std::task::Poll::Ready(x) = this.a.as_mut().poll(cx) {
+                this.ra = Some(x);
+            }
+        }
+        if this.rb.is_none() {
+            if let std::task::Poll::Ready(x) = this.b.as_mut().poll(cx) {
+                this.rb = Some(x);
+            }
+        }
+        if this.ra.is_some() && this.rb.is_some() {
+            std::task::Poll::Ready((this.ra.take().unwrap(), this.rb.take().unwrap()))
+        } else {
+            std::task::Poll::Pending
+        }
+    }
+}
+
